@@ -296,6 +296,9 @@ type h2cStep struct {
 	// MsgLen > 0: the message is MsgLen bytes of a fixed pattern instead of Msg (messages of megabytes: what a call with a
 	// very large input leaves behind - grown scratch buffers, pool entries dropped or kept - must not reach the next call).
 	MsgLen int `json:"msg_len,omitempty"`
+	// DstLen > 0: the DST is DstLen bytes of a fixed pattern instead of Dst ("a tag of any length": megabytes of it go through the
+	// oversize-DST hashing like 256 bytes do)
+	DstLen int `json:"dst_len,omitempty"`
 	Rep    int `json:"rep,omitempty"` // steps with an empty DST (the documented panic): how many times the call is made
 	// SleepMs: time passes before this step (fixed cases only: expiring caches, periodic background work)
 	SleepMs int `json:"sleep_ms,omitempty"`
@@ -314,6 +317,17 @@ func (st h2cStep) message() []byte {
 	return m
 }
 
+func (st h2cStep) dstBytes() []byte {
+	if st.DstLen == 0 {
+		return gen.HexBytes(st.Dst)
+	}
+	d := make([]byte, st.DstLen)
+	for i := range d {
+		d[i] = byte(i*17 + st.DstLen + 3)
+	}
+	return d
+}
+
 // hugeSequences are fixed cases: a call with a message of 1 MiB + 1, 3 MiB, 16 MiB + 3 bytes followed by ordinary calls.
 func hugeSequences(fns []string) []caseH2CSeq {
 	var out []caseH2CSeq
@@ -325,6 +339,13 @@ func hugeSequences(fns []string) []caseH2CSeq {
 			{Fn: fn2, Msg: hex.EncodeToString(bytes.Repeat([]byte{'m'}, 100)), Dst: d16}, {Fn: fn, Dst: d300, MsgLen: n / 2}, {Fn: fn, Msg: "00", Dst: d16}}, GC: i%2 == 1})
 	}
 	fn := fns[0]
+	// tags of 1 MiB + 1, 16 MiB + 1 and 32 MiB + 3 bytes (oversize-DST hashing of a long tag), followed by ordinary calls
+	for i, n := range []int{1<<20 + 1, 1<<24 + 1, 1<<25 + 3} {
+		out = append(out, caseH2CSeq{Steps: []h2cStep{{Fn: fns[i%len(fns)], Msg: "616263", DstLen: n}, {Fn: fns[i%len(fns)], Msg: "616263", Dst: d16}, {Fn: fn, Msg: "", Dst: d300}}})
+	}
+	if os.Getenv("VERIF_TIER") == "thorough" && strconv.IntSize == 64 {
+		out = append(out, caseH2CSeq{Steps: []h2cStep{{Fn: fn, Msg: "616263", DstLen: 1<<28 + 7}, {Fn: fn, Msg: "616263", Dst: d16}}})
+	}
 	if os.Getenv("VERIF_TIER") == "thorough" && strconv.IntSize == 64 {
 		// a message of 2^31 + 128 bytes (zeros, backed by an untouched mapping: no memory, two passes of SHA-256 over 2 GiB), then
 		// ordinary calls: lengths that do not fit 31 bits
@@ -437,9 +458,10 @@ const hugeMsg = 1 << 30
 func runH2CSeq(c caseH2CSeq, o *gen.Obs) error {
 	maxD, maxM := 0, 0
 	for _, st := range c.Steps {
-		if l := len(st.Dst) / 2; l > maxD {
+		if l := max(len(st.Dst)/2, st.DstLen); l > maxD {
 			maxD = l
 		}
+		o.ClassIf(st.DstLen > 1<<24, "dst>16MiB")
 		if l := max(len(st.Msg)/2, st.MsgLen); l > maxM && st.MsgLen < hugeMsg {
 			maxM = l
 		}
@@ -461,7 +483,7 @@ func runH2CSeq(c caseH2CSeq, o *gen.Obs) error {
 		} else {
 			msgData = st.message()
 		}
-		dstData := gen.HexBytes(st.Dst)
+		dstData := st.dstBytes()
 		if len(dstData) == 0 {
 			// the documented panic (empty DST), recovered by the caller, st.Rep times: what follows must be unaffected
 			for r := 0; r < max(1, st.Rep); r++ {
